@@ -1,5 +1,6 @@
 import PymocaVerif.Lemmas.GenTag2
-import PymocaVerif.Lemmas.GenFunc
+import PymocaVerif.Lemmas.GenFuncMain
+import PymocaVerif.Lemmas.GenDelay
 import PymocaVerif.Model.RatPrims
 /-!
 # C12 — the representation options do not change the model's meaning
@@ -10,7 +11,7 @@ of a `call` node, and the `expand` flag of the final function.  The theorems say
 they do — under other options the generator builds the same terms with other tags (also inside called
 functions), accepts and rejects the same models — and that evaluation never looks at a tag.  Hence
 all 8 combinations give residual functions with identical values at every point, for every model
-(any loops, any functions, no fragment restriction).  The variable lists and their metadata are built by
+(any loops, any functions).  The variable lists and their metadata are built by
 code that takes none of the three options (`exitClass`, `_ast_symbols_to_variables`); on the real code
 that part is checked by the 8-way differential run (`harness/props/c12.py`).
 -/
@@ -69,6 +70,27 @@ theorem repr_invariant_rejection (P : Prims K) (o o' : Opts) (ienv : String → 
     genResidual P o' ienv m initial = .error e := by
   rw [options_only_tag_residual P o o', h]; rfl
 
+/-- The delay-argument function too: under other options the same terms with other tags, hence the same
+    values at every point. -/
+theorem repr_invariant_delay (P : Prims K) (o o' : Opts) (m : MModel K) (fn : CFunction K)
+    (h : genDelayFunction P o m = .ok fn) :
+    ∃ fn', genDelayFunction P o' m = .ok fn' ∧ fn'.expand = o'.expand ∧
+      ∀ ρ : Env K, evalFn P ρ fn' = evalFn P ρ fn := by
+  unfold genDelayFunction at h ⊢
+  rw [genTable_retag P o o' m.funcs, genDelayArgs_retag P o o']
+  generalize ((m.ieqs ++ m.eqs).flatMap delaysOfMEq) = ds at h ⊢
+  cases hts : genDelayArgs P o (genTable P o m.funcs) ds with
+  | error e => rw [hts] at h; cases h
+  | ok ts =>
+    rw [hts] at h
+    simp only [bind, Except.bind, Except.ok.injEq] at h
+    subst h
+    refine ⟨_, rfl, rfl, fun ρ => ?_⟩
+    simp only [evalFn, List.flatMap_map]
+    have : (ts.flatMap fun p => [retag o' p.1, retag o' p.2]) = (ts.flatMap fun p => [p.1, p.2]).map (retag o') := by
+      simp [List.map_flatMap]
+    rw [this, evalCL_retag]
+
 def exampleModel : MModel Rat :=
   { funcs := [{ name := "f", inputs := ["a"], outputs := ["r"], locals := [],
                 body := [.assign "r" (.num 1),
@@ -91,8 +113,8 @@ example : ∀ u i x : Bool, ∃ fn, genResidual ratPrims ⟨u, i, x⟩ (fun _ =>
   decide +kernel
 
 /-- Link to C11: where the Modelica meaning of the equations is defined, *every* option combination
-    returns that meaning (functions in the fragment of `function_subst_partial`). -/
-theorem repr_invariant_meaning_partial (P : Prims K) (o o' : Opts) (ienv : String → Option Int)
+    returns that meaning (functions in the class of C11's `function_subst`). -/
+theorem repr_invariant_meaning (P : Prims K) (o o' : Opts) (ienv : String → Option Int)
     (m : MModel K) (initial : Bool) (fn : CFunction K)
     (h : genResidual P o ienv m initial = .ok fn)
     (hsafe : ∀ f ∈ m.funcs, SafeFunc f) (hS : NoShadow (genTable P o m.funcs))
@@ -105,7 +127,7 @@ theorem repr_invariant_meaning_partial (P : Prims K) (o o' : Opts) (ienv : Strin
   unfold genResidual at h
   obtain ⟨ts, hts, hc⟩ := bind_ok.mp h
   cases hc
-  -- `residual_function_correct_partial` of C11, restated here to keep this file's imports minimal
+  -- `residual_function_correct` of C11, restated here to keep this file's imports minimal
   have hT : TabOK P (genTable P o m.funcs) (funcTable P m.funcs) := by
     have : ∀ (fs : List (MFunc K)), (∀ f ∈ fs, SafeFunc f) → NoShadow (genTable P o fs) →
         TabOK P (genTable P o fs) (funcTable P fs) := by
